@@ -84,7 +84,7 @@ def simulate(S, evs, extra_occupied=(), label="", round_trip=None, doc=None):
     return ("ok",), before, sim
 
 
-def judge(ctx, move, label, S, method, args, valid, expected_end, sig_extra=None, extra_occupied=(), post=None, doc=None):
+def judge(ctx, move, label, S, method, args, valid, expected_end, sig_extra=None, extra_occupied=(), post=None, doc=None, pre=None):
     """run one library call; decide rejected / executable; compare with the documentation"""
     st, evs, extra = events.run_events(method, args, S)
     ctx.evaluations += 1
@@ -96,7 +96,8 @@ def judge(ctx, move, label, S, method, args, valid, expected_end, sig_extra=None
         call = (f"cz_model {zq} {' '.join(nl(l) for l in args)} (2#1) (2#1)" if move != "two_col_zone.rearrange"
                 else f"rearrange_model {zq} {' '.join(nl(l) for l in args)}")
         strict = f"rearrange_strict {zq} {' '.join(nl(l) for l in args)}" if move == "two_col_zone.rearrange" else "true"
-        LIB_CASES.append((move, call, f"(Some {paths_coq(evs)})" if st == "ok" else "None", f"{move} {label}", strict, st == "ok"))
+        park = (f"(parking_ok {zq}, rearrange_preconditionsb {zq} {' '.join(nl(l) for l in args)})" if move == "two_col_zone.rearrange" else "(true, true)")
+        LIB_CASES.append((move, call, f"(Some {paths_coq(evs)})" if st == "ok" else "None", f"{move} {label}", strict, st == "ok", park, valid if pre is None else pre))
     rep = {"move": move, "call": label}
     sig = {"move": move}
     sig.update(sig_extra or {})
@@ -236,7 +237,7 @@ def rearrange_cases(ctx):
                 return {a: m.get(p, p) for p, a in before.items()}
             judge(ctx, "two_col_zone.rearrange", f"layout {nx}x{ny}@{s}/{g} src=({sx},{sy}) dst=({dx},{dy})", S, two_col_zone.rearrange,
                   (I(sx), I(sy), I(dx), I(dy)), valid and (compatible or set(dst) == set(src)), end if compatible else None,
-                  sig_extra={"spacing_ge_6": s >= 6.0, "spacing_eq_6": s == 6.0}, doc=(zone.x_positions, zone.y_positions, sx, sy, dx, dy) if compatible else None)
+                  sig_extra={"spacing_ge_6": s >= 6.0, "spacing_eq_6": s == 6.0}, doc=(zone.x_positions, zone.y_positions, sx, sy, dx, dy) if compatible else None, pre=valid)
 
 
 def same_arguments_on_two_layouts(ctx):
@@ -448,10 +449,12 @@ def kernel_models(ctx):
     cases = (acc if len(acc) <= cap else ctx.rng.sample(acc, cap)) + (rej if len(rej) <= cap else ctx.rng.sample(rej, cap))
     chunks = [cases[i:i + 40] for i in range(0, len(cases), 40)]
     bodies = [(f"lib_{k}", "From BS Require Import Core.Show Core.Base Model.Aod Model.LibMoves.\n"
-               "Definition row (c : option (list spath) * option (list spath) * bool) : string :=\n"
-               "  match c with (m, i, strict) => (show_bool (agrees m i) ++ show_bool (match m with Some _ => true | None => false end) ++ show_bool strict)%string end.\n"
-               "Eval vm_compute in (lines (map row " + clist([f"({c[1]}, {c[2]}, {c[4]})" for c in ch]) + ")).") for k, ch in enumerate(chunks)]
+               "Definition row (c : option (list spath) * option (list spath) * bool * (bool * bool)) : string :=\n"
+               "  match c with (m, i, strict, (park, pre)) => (show_bool (agrees m i) ++ show_bool (match m with Some _ => true | None => false end) ++ show_bool strict\n"
+               "     ++ show_bool park ++ show_bool pre)%string end.\n"
+               "Eval vm_compute in (lines (map row " + clist([f"({c[1]}, {c[2]}, {c[4]}, {c[6]})" for c in ch]) + ")).") for k, ch in enumerate(chunks)]
     mism, n_acc, n_rej, n_strict = [], 0, 0, 0
+    n_doc, doc_bad, pre_bad = 0, [], []
     for ch, (ok, vals, log) in zip(chunks, coqrun.eval_many(ctx.bdir, bodies)):
         if not ok or len(vals) != 1 or len(vals[0]) != len(ch):
             ctx.obligation("coqc library-kernel file evaluates", False, log[-800:])
@@ -462,11 +465,25 @@ def kernel_models(ctx):
             n_acc += c[5]
             n_rej += not c[5]
             n_strict += (c[0] == "two_col_zone.rearrange" and c[5] and line[2:3] == "T")
+            if c[0] == "two_col_zone.rearrange":
+                # the harness' notion of "documented preconditions" is the Coq predicate the theorem is stated with
+                if (line[4:5] == "T") != bool(c[7]):
+                    pre_bad.append({"call": c[3], "coq_preconditions": line[4:5] == "T", "harness_valid": bool(c[7])})
+                # theorem C08_rearrange_documented_call_is_accepted, observed: parking_ok layout + preconditions => accepted and strict
+                if line[3:4] == "T" and line[4:5] == "T":
+                    n_doc += 1
+                    if not (c[5] and line[1:2] == "T" and line[2:3] == "T"):
+                        doc_bad.append({"call": c[3], "implementation_accepts": c[5], "model_accepts": line[1:2] == "T", "strict": line[2:3] == "T"})
     ctx.correspondence("Model.LibMoves (cz_model / rearrange_model: the kernels as functions of zone coordinates and index lists) vs the library: "
                        "same verdict and, when accepted, the same played paths", len(cases), mism)
     ctx.count("library-kernel model: calls the implementation accepts", n_acc)
     ctx.count("library-kernel model: calls the implementation rejects", n_rej)
     ctx.count("accepted rearrange calls whose parking coordinates are pairwise different (rearrange_strict)", n_strict)
+    ctx.correspondence("rearrange_preconditionsb (the documented preconditions as stated in Coq) = the harness' notion of a valid rearrange call", 
+                       sum(1 for c in cases if c[0] == "two_col_zone.rearrange"), pre_bad)
+    ctx.correspondence("on layouts where parking_ok holds (evaluated in Coq), every rearrange call meeting the documented preconditions is accepted with "
+                       "pairwise different parking coordinates, as theorem C08_rearrange_documented_call_is_accepted says", n_doc, doc_bad)
+    ctx.count("documented rearrange calls on layouts where parking is possible (theorem instances observed)", n_doc)
 
 
 def replay(data):
